@@ -117,7 +117,11 @@ type poolPlan struct {
 	ctxret bool
 	ev     string // the VALUE of the provider/aggregator error: plain|wdeadline|wcancel|fmtcancel|nettimeout|joined
 	slow   int    // milliseconds the provider / aggregator take to wind down once their context is done
+	pg     plugPlan // the gun / schedule factory is built by the real plugin registry (fault pg-...)
 }
+
+// fails: the pool's plan makes the creation of a gun / schedule (what = gun | sched) fail.
+func (pl poolPlan) fails(what string) bool { return pl.fault == what || pl.pg.what == what }
 
 func parsePool(s string) poolPlan {
 	f := strings.Split(s, ",")
@@ -126,6 +130,7 @@ func parsePool(s string) poolPlan {
 	if len(f) > 8 {
 		pl.ev = f[8]
 	}
+	pl.pg, _ = parsePG(pl.fault)
 	if len(f) > 9 && strings.HasPrefix(f[9], "slow") {
 		pl.slow, _ = strconv.Atoi(f[9][4:])
 	}
@@ -540,6 +545,13 @@ type poolMocks struct {
 	shoots     atomic.Int64
 	provRes    atomic.Value // what Provider.Run returned (class), unset while it has not returned
 	gw         *gwPool      // the pool's gun is the REAL grpc gun against this target (fault gw-...)
+	aggrRes    atomic.Value // what the REAL aggregator's Run returned (the failures its error carries)
+	aggrOps    *opTrace     // the operations the real aggregator performed on its encoder / sink
+	plugCalls  *plugCalls   // calls of the factory built by the real plugin registry
+	factCalls  [2]atomic.Int64
+	// from its shootGateAt-th Shoot on, the pool's Shoot calls wait (bounded) until shootGate is closed
+	shootGate   chan struct{}
+	shootGateAt int
 }
 
 type mockGun struct {
@@ -608,6 +620,12 @@ func (g *mockGun) Shoot(am core.Ammo) {
 		rs.log.Info("verif-cancel-end")
 		<-rs.release
 	}
+	if g.pm.shootGate != nil && c >= g.pm.shootGateAt { // from that shot on, every instance waits for the gate
+		select {
+		case <-g.pm.shootGate:
+		case <-time.After(2 * time.Second):
+		}
+	}
 	if g.pm.plan.fault == "panic" && c == g.pm.plan.k {
 		g.pm.fault("panic")
 		panic(panicText)
@@ -624,9 +642,11 @@ func (g *mockGun) Close() error {
 	return nil
 }
 
-func (pm *poolMocks) newGun() (core.Gun, error) {
+func (pm *poolMocks) newGun() (core.Gun, error) { return pm.newGunBase(true) }
+
+func (pm *poolMocks) newGunBase(mayFail bool) (core.Gun, error) {
 	c := int(pm.gunCalls.Add(1))
-	if pm.plan.fault == "gun" && c == pm.plan.k+1 { // k = 0: the warm-up call
+	if mayFail && pm.plan.fails("gun") && c == pm.plan.k+1 { // k = 0: the warm-up call
 		pm.fault("gun")
 		return nil, errGun
 	}
@@ -638,9 +658,11 @@ func (pm *poolMocks) newGun() (core.Gun, error) {
 	return &mockGun{pm: pm}, nil
 }
 
-func (pm *poolMocks) newSchedule() (core.Schedule, error) {
+func (pm *poolMocks) newSchedule() (core.Schedule, error) { return pm.newScheduleBase(true) }
+
+func (pm *poolMocks) newScheduleBase(mayFail bool) (core.Schedule, error) {
 	c := int(pm.schedCalls.Add(1))
-	if pm.plan.fault == "sched" && c == pm.plan.k+1 {
+	if mayFail && pm.plan.fails("sched") && c == pm.plan.k+1 {
 		pm.fault("sched")
 		return nil, errSched
 	}
@@ -696,11 +718,11 @@ func classify(err error) string {
 		return "f.prov"
 	case strings.Contains(err.Error(), errAggr.Error()):
 		return "f.aggr"
-	case errors.Is(err, errGun):
+	case errors.Is(err, errGun), errors.Is(err, errFillGun):
 		return "f.gun"
 	case errors.Is(err, errWarm):
 		return "f.warm"
-	case errors.Is(err, errSched):
+	case errors.Is(err, errSched), errors.Is(err, errFillSched):
 		return "f.sched"
 	case errors.Is(err, errBind):
 		return "f.bind"
@@ -927,9 +949,16 @@ func runCase(line string) string {
 			RPSPerInstance:  !pl.shared,
 			StartupSchedule: schedule.NewOnce(int64(pl.n)),
 		}
+		gunFactory, schedFactory := pm.newGun, pm.newSchedule
+		switch pl.pg.what {
+		case "gun":
+			gunFactory = plugFactory(pm, pl.pg).(func() (core.Gun, error))
+		case "sched":
+			schedFactory = plugFactory(pm, pl.pg).(func() (core.Schedule, error))
+		}
 		pc.NewGun = func() (core.Gun, error) {
-			first := pm.gunCalls.Load() == 0
-			g, err := pm.newGun()
+			first := pm.factCalls[0].Add(1) == 1
+			g, err := gunFactory()
 			if err != nil && first {
 				log.Info("verif-pre-fail", zap.Int("p", idx), zap.String("what", "gun"))
 			}
@@ -939,8 +968,8 @@ func runCase(line string) string {
 			return g, err
 		}
 		pc.NewRPSSchedule = func() (core.Schedule, error) {
-			first := pm.schedCalls.Load() == 0
-			s, err := pm.newSchedule()
+			first := pm.factCalls[1].Add(1) == 1
+			s, err := schedFactory()
 			if err != nil && first && pm.plan.shared {
 				log.Info("verif-pre-fail", zap.Int("p", idx), zap.String("what", "sched"))
 			}
@@ -1023,8 +1052,23 @@ func runCase(line string) string {
 		k = strconv.FormatInt(rs.begun.Load()-endedAtWait, 10)
 	}
 	// Q: what each pool's Provider.Run returned; A: the number of Shoot calls of each pool
-	var q, a, u, m []string
+	var q, a, u, m, ea, ev, fc []string
 	for _, pm := range pms {
+		if v, ok := pm.aggrRes.Load().(string); ok {
+			ea = append(ea, v)
+		} else {
+			ea = append(ea, "-")
+		}
+		if pm.aggrOps != nil {
+			ev = append(ev, pm.aggrOps.String())
+		} else {
+			ev = append(ev, "-")
+		}
+		if pm.plugCalls != nil {
+			fc = append(fc, pm.plugCalls.String())
+		} else {
+			fc = append(fc, "-")
+		}
 		if pm.gw != nil {
 			pm.gw.mu.Lock()
 			u = append(u, pm.gw.warmRes)
@@ -1041,8 +1085,9 @@ func runCase(line string) string {
 		}
 		a = append(a, strconv.FormatInt(pm.shoots.Load(), 10))
 	}
-	return fmt.Sprintf("R=%s W=%s G=%s K=%s N=%d Q=%s A=%s U=%s M=%s C=%d L=%d T=%s", res, vh.B(w), vh.B(settled), k, rs.compRuns.Load(),
-		strings.Join(q, ","), strings.Join(a, ","), strings.Join(u, ","), strings.Join(m, ","), rs.created.Load(), rs.closed.Load(), strings.Join(toks, ","))
+	return fmt.Sprintf("R=%s W=%s G=%s K=%s N=%d Q=%s A=%s U=%s M=%s E=%s V=%s F=%s C=%d L=%d T=%s", res, vh.B(w), vh.B(settled), k, rs.compRuns.Load(),
+		strings.Join(q, ","), strings.Join(a, ","), strings.Join(u, ","), strings.Join(m, ","), strings.Join(ea, ","), strings.Join(ev, ","), strings.Join(fc, ","),
+		rs.created.Load(), rs.closed.Load(), strings.Join(toks, ","))
 }
 
 // ---- generator ----
@@ -1324,6 +1369,56 @@ func gen(r *vh.Rand, tier string) []string {
 			}
 			out = append(out, line)
 		}
+		// a transient failure of a periodic (flush-interval) flush, mid-run: only that one Flush call fails -- the 1st /
+		// 2nd / a later one --, everything after it (the final flush, the close of the sink) succeeds; with and without an
+		// encoder that reports its own flushes; ended by ammo, by schedule, or not at all unless the failure ends the run
+		for i, j := range []int{1, 2, r.Range(3, 9), r.Range(1, 4), r.Range(1, 40), r.Range(1, 3)} {
+			p := poolPlan{n: r.Range(1, 3), shared: r.Bool(), ammo: r.Range(3, 8), tokens: r.Range(3, 6), fault: fmt.Sprintf("eflusht%d", j), gate: true, ctxret: r.Bool()}
+			p.k = r.Range(1, 3)
+			if !p.shared {
+				p.k = 1
+			}
+			cp := "none"
+			switch i {
+			case 3:
+				p.ammo = -1
+			case 4:
+				cp = "after"
+			case 5:
+				p.ammo, p.tokens = -1, -1
+				p.shared = true
+			}
+			line := "run " + cp + " " + poolStr(p)
+			if i%3 == 2 {
+				line += " " + poolStr(healthy)
+			}
+			out = append(out, line)
+		}
+		// the gun / schedule factory the engine calls is built by the REAL plugin registry from a registered constructor
+		// of every supported shape (interface or concrete result, with / without config, with / without an error result,
+		// constructor of plugins or of factories); the constructor (or the filling of its config) fails at the warm-up
+		// call / for a later instance / never
+		for _, what := range []string{"gun", "sched"} {
+			for _, shape := range []string{"ie", "pe", "cpe", "cie", "fpe", "fie", "cpen", "pen", "cien", "fpen", "cpef", "cief", "cpf", "cp", "fp"} {
+				for _, pos := range []int{0, r.Range(1, 2)} {
+					p := poolPlan{n: 3, shared: r.Bool(), ammo: 8, tokens: r.Range(3, 6), fault: "pg-" + what + "-" + shape, k: pos, ctxret: r.Bool()}
+					if what == "sched" {
+						p.shared = pos == 0
+						if !p.shared {
+							p.tokens = 2
+						}
+					}
+					if (shape == "cp" || shape == "fp") && pos > 0 {
+						continue
+					}
+					line := "run " + r.Pick([]string{"none", "none", "none", "after"}) + " " + poolStr(p)
+					if r.Chance(1, 4) {
+						line += " " + poolStr(healthy)
+					}
+					out = append(out, line)
+				}
+			}
+		}
 		// the caller cancels at the very moment Engine.Run has taken a pool's result (failing or nil) from its channel
 		for _, ft := range []string{"gun", "warm", "sched", "bind", "panic", "prov", "aggr", "none"} {
 			p := poolPlan{n: r.Range(1, 3), shared: true, ammo: r.Range(2, 8), tokens: r.Range(2, 6), fault: ft, ctxret: r.Bool()}
@@ -1369,7 +1464,7 @@ func gen(r *vh.Rand, tier string) []string {
 	// gun bookkeeping (is every created closable gun closed?) is judged on a sample of the same plans
 	var guns []string
 	for i, l := range out {
-		if i%6 == 0 || strings.Contains(l, ",bind,") {
+		if i%6 == 0 || strings.Contains(l, ",bind,") || (strings.Contains(l, ",pg-gun-") && i%2 == 0) {
 			guns = append(guns, "guns"+l[3:])
 		}
 	}
